@@ -2,6 +2,7 @@ package nc
 
 import (
 	"fmt"
+	"go/constant"
 	"go/token"
 	"go/types"
 	"strings"
@@ -68,16 +69,23 @@ func cursorFamily(fn *ssa.Function, tm *Termer, listTerm string) map[ssa.Value]b
 func exhaustedBy(tm *Termer, g Guard, fam map[ssa.Value]bool, listTerm string) bool {
 	// the outcome as a fact `c rel y` about a cursor c of the family, whatever the spelling of the test
 	// (operands exchanged, complement under `!`, branches exchanged)
-	y, set, ok := c07FactAbout(g.Cond, g.True, func(v ssa.Value) bool { return fam[v] })
+	c, y, set, ok := c07FactAboutX(g.Cond, g.True, func(v ssa.Value) bool { return fam[v] })
 	if !ok || fam[y] {
+		return false
+	}
+	// the fact is about the index the list is read at: index = c + off (off = 0 when the cursor is the index itself;
+	// -1 for a version of a cursor that counts the genes left, ...)
+	off, okOff := tm.c07CurOf(listTerm).Off(c)
+	if !okOff {
 		return false
 	}
 	if tm.Of(y).String() == "len("+listTerm+")" {
 		// forward: the outcome excludes c < len (c >= len, c == len, c > len)
-		return set&c07RelLT == 0
+		return off == 0 && set&c07RelLT == 0
 	}
 	if k, isK := c07Int(y); isK {
-		// backward: the outcome implies c < 0 (c < k with k <= 0; c <= k or c == k with k <= -1)
+		// backward: the outcome implies index < 0 (index < k with k <= 0; index <= k or index == k with k <= -1)
+		k += off
 		return (k <= 0 && set == c07RelLT) || (k <= -1 && set&c07RelGT == 0)
 	}
 	return false
@@ -88,20 +96,32 @@ func exhaustedBy(tm *Termer, g Guard, fam map[ssa.Value]bool, listTerm string) b
 // and moves by one step per iteration under this very test they are the same fact (the callers prove start and step).
 // This is NOT the complement of exhaustedBy: `c > len` refused says c <= len, which is not "inside".
 func inRangeBy(tm *Termer, g Guard, fam map[ssa.Value]bool, listTerm string) bool {
-	return c07InRangeFact(tm, g, func(v ssa.Value) bool { return fam[v] }, listTerm)
+	cur := tm.c07CurOf(listTerm)
+	return c07InRangeFactOff(tm, g, func(v ssa.Value) bool { return fam[v] }, listTerm, cur.Off)
 }
 
-// c07InRangeFact is inRangeBy for a cursor value picked by a predicate (e.g. "resolves, on this path, to the
-// value the cursor has at the start of the iteration").
+// c07InRangeFact is inRangeBy for a cursor value picked by a predicate that identifies a VERSION of the cursor
+// variable (e.g. "resolves, on this path, to the value the cursor has at the start of the iteration").
 func c07InRangeFact(tm *Termer, g Guard, is func(ssa.Value) bool, listTerm string) bool {
-	y, set, ok := c07FactAbout(g.Cond, g.True, is)
+	bias := tm.c07BiasOf(listTerm)
+	return c07InRangeFactOff(tm, g, is, listTerm, func(ssa.Value) (int64, bool) { return bias, true })
+}
+
+// c07InRangeFactOff: offOf gives, for the operand picked, the constant with index = operand + off.
+func c07InRangeFactOff(tm *Termer, g Guard, is func(ssa.Value) bool, listTerm string, offOf func(ssa.Value) (int64, bool)) bool {
+	c, y, set, ok := c07FactAboutX(g.Cond, g.True, is)
 	if !ok || is(y) {
 		return false
 	}
+	off, okOff := offOf(c)
+	if !okOff {
+		return false
+	}
 	if tm.Of(y).String() == "len("+listTerm+")" {
-		return set == c07RelLT || set == c07RelLT|c07RelGT
+		return off == 0 && (set == c07RelLT || set == c07RelLT|c07RelGT)
 	}
 	if k, isK := c07Int(y); isK {
+		k += off
 		return (k >= 0 && set&c07RelLT == 0) || (k >= -1 && set == c07RelGT) || (k == -1 && set == c07RelLT|c07RelGT)
 	}
 	return false
@@ -231,7 +251,7 @@ func constInt(v ssa.Value) (int64, bool) {
 
 // C07 — compatibility distance.
 func C07(p *Prog, r *Run) {
-	r.Explanation = "Decided on compatibility/compatLinear/compatFast: (1) the method dispatch reaches the linear walk exactly for the `linear` option value and the fast walk otherwise; (2) every float division whose denominator is a loop counter starting at 0 is dominated by a test that the counter is positive (never NaN); (3) merge-walk exhaustion: every way out of the walk either has both cursors exhausted, or has one exhausted and adds the remainder of the other list to the distance; (4) per-step accounting over every acyclic path of one loop iteration: a step that advances one cursor adds exactly one unit (one coefficient) of disjoint-or-excess and nothing else, the step that advances both adds no unit, counts one match and accumulates |m1-m2| of the two current genes, no step leaves both cursors in place; in the linear walk a unit is 'excess' exactly when the other list is exhausted, in the fast walk unit kind and next switch state follow the 4-state table; the merge loop may be followed by tail loops that each walk the rest of one list (each judged on its own: entered only with the other list exhausted, one unit per remaining gene, left only with the list exhausted, continuing cursor and count of the walk), or the remainder may be added in one piece (len-cursor) behind the loop; (4b) start state: all counters 0, cursors on the first gene in walking direction; (4c) result: on every way from the end of the walk to a return the value returned is DisjointCoeff*D + ExcessCoeff*E (+ MutdiffCoeff*MD/M exactly when genes matched) over the final counters, nothing else added, subtracted or rescaled; (4d) a return in front of the walk happens only for an empty gene list and yields ExcessCoeff times the genes of the other list; (5) both methods read only the three coefficients, InnovationNum and MutationNum and write nothing; (6) the coefficients read are the configured ones: nothing in the library overwrites them in an Options object it was handed, a loader fills them only from its input. In the fast walk an unmatched step advances the list whose current innovation number is larger. Not decided: equality of the two methods' values for all pairs (implied by 3-4 only informally), floating-point summation order."
+	r.Explanation = "Decided on compatibility/compatLinear/compatFast: (1) the method dispatch reaches the linear walk exactly for the `linear` option value and the fast walk otherwise (a call through a function value picked beforehand is read as one invocation per function it can hold, under the outcomes of the edge that picked it; forwarding wrappers are looked through); (2) every float division whose denominator is a loop counter starting at 0 is dominated by a test that the counter is positive (never NaN); (3) merge-walk exhaustion: every way out of the walk either has both cursors exhausted, or has one exhausted and adds the remainder of the other list to the distance; (4) per-step accounting over every acyclic path of one loop iteration: a step that advances one cursor adds exactly one unit (one coefficient) of disjoint-or-excess and nothing else, the step that advances both adds no unit, counts one match and accumulates |m1-m2| of the two current genes, no step leaves both cursors in place; in the linear walk a unit is 'excess' exactly when the other list is exhausted, in the fast walk unit kind and next switch state follow the 4-state table (judged for every state the outcomes of a path leave possible; a unit kind or next state looked up in a package-level table counts only when that table is proved constant: no pointers in its type, filled with constants by the package initialiser, written or address-taken nowhere else in the program); the merge loop may be followed by tail loops that each walk the rest of one list (each judged on its own: entered only with the other list exhausted, one unit per remaining gene, left only with the list exhausted, continuing cursor and count of the walk), or the remainder may be added in one piece (len-cursor) behind the loop; (4b) start state: all counters 0, cursors on the first gene in walking direction (a cursor may be the index itself or the number of genes left; every cursor fact is read as a fact about the index the list is read at); (4c) result: on every way from the end of the walk to a return the value returned is DisjointCoeff*D + ExcessCoeff*E (+ MutdiffCoeff*MD/M exactly when genes matched) over the final counters, nothing else added, subtracted or rescaled; (4d) a return in front of the walk happens only for an empty gene list and yields ExcessCoeff times the genes of the other list; (5) both methods read only the three coefficients, InnovationNum and MutationNum and write nothing; (6) the coefficients read are the configured ones: nothing in the library overwrites them in an Options object it was handed, a loader fills them only from its input. In the fast walk an unmatched step advances the list whose current innovation number is larger. Not decided: equality of the two methods' values for all pairs (implied by 3-4 only informally), floating-point summation order."
 	comp := p.Func(PkgG, "Genome.compatibility")
 	lin := p.Func(PkgG, "Genome.compatLinear")
 	fast := p.Func(PkgG, "Genome.compatFast")
@@ -303,6 +323,14 @@ func C07(p *Prog, r *Run) {
 		if c1 == nil || c2 == nil || c1 == c2 {
 			r.Undecided(fn.Name()+".cursors", p.Pos(fn.Pos()), "the two cursors are not distinct loop-carried variables")
 			return
+		}
+		// index cursor or count cursor: how each cursor variable relates to the index its list is read at
+		tm.c07cur = map[string]*c07Cur{"recv.Genes": c07CursorInfo(fn, tm, "recv.Genes", c1), "p1.Genes": c07CursorInfo(fn, tm, "p1.Genes", c2)}
+		for _, lt := range []string{"recv.Genes", "p1.Genes"} {
+			if ci := tm.c07cur[lt]; ci != nil && ci.Why != "" {
+				r.Undecided(fn.Name()+".cursors", p.Pos(fn.Pos()), "cannot relate a cursor to the genes it stands for: "+ci.Why)
+				return
+			}
 		}
 		// accumulators
 		opt := func(name string) *types.Var { return p.Field(PkgT, "Options", name) }
@@ -576,21 +604,38 @@ func C07(p *Prog, r *Run) {
 					}
 					if ok && kind == "fast" && sw != nil {
 						// 4-state table
-						// (read from the outcomes of every test of the switch on this path, in any spelling)
-						cur := c07StateOnPath(ip.Conds, sw)
+						// (read from the outcomes of every test of the switch on this path, in any spelling; where the
+						// outcomes leave several states possible - the unit and the next state are looked up in a constant
+						// table at the state, or several states are handled alike - the path is judged for each of them)
+						states := c07StatesOnPath(p, ip, sw)
 						nv := ip.NextValue(sw)
-						nx, isK := c07Int(nv)
-						if nv == ssa.Value(sw) && cur >= 0 {
-							nx, isK = cur, true // unchanged on this path
-						}
 						own := int64(1)
 						if a2 == 1 {
 							own = 2
 						}
-						if cur < 0 || !isK {
+						if len(states) == 0 {
 							ok = false
 							detail = "cannot determine the excess/disjoint switch state on this path"
-						} else {
+						}
+						for _, cur := range states {
+							if !ok {
+								break
+							}
+							nx, isK := c07Int(nv)
+							if !isK && nv == ssa.Value(sw) {
+								nx, isK = cur, true // unchanged on this path
+							}
+							if !isK {
+								// looked up in a constant table at the current state
+								if val, okV := c07TableEval(p, ip, nv, sw, cur); okV && val.Kind() == constant.Int {
+									nx, isK = constant.Int64Val(val)
+								}
+							}
+							if !isK {
+								ok = false
+								detail = fmt.Sprintf("cannot determine the next excess/disjoint switch state on this path (state %d)", cur)
+								break
+							}
 							wantKind, wantNext := "disjoint", int64(3)
 							switch cur {
 							case 0:
@@ -727,6 +772,9 @@ func C07(p *Prog, r *Run) {
 			Instrs(fn, func(_ *ssa.BasicBlock, _ int, in ssa.Instruction) {
 				if fa, isFA := in.(*ssa.FieldAddr); isFA {
 					k := ownerOf(fa.X.Type()).Obj().Name() + "." + fieldOf(fa.X.Type(), fa.Field).Name()
+					if !allowed[k] && p.c07InConstTable(fa, 0) {
+						return // an entry of a constant table (or of a local copy of one): a constant, not an input
+					}
 					if !allowed[k] {
 						r.Bad(fn.Name()+".reads:"+k, p.Pos(fa.Pos()), fn.Name()+" reads "+k+", which is not part of the compatibility formula")
 						ok = false
@@ -876,13 +924,27 @@ func (r *Run) c07Dispatch() {
 	tm := NewTermer(comp)
 	cl := p.Const(PkgT, "GenomeCompatibilityMethodLinear")
 	_ = p.Const(PkgT, "GenomeCompatibilityMethodFast")
-	ll, ff := CallsTo(comp, lin), CallsTo(comp, fast)
+	// the walks compatibility executes, however the callee is written (static call, forwarding wrapper, function value
+	// picked beforehand: one invocation per function the value can hold, under the outcomes of the edge that picked it)
+	invs := c07Invocations(comp, map[*ssa.Function]bool{lin: true, fast: true})
+	var ll, ff []c07Invocation
+	for _, iv := range invs {
+		switch iv.Target {
+		case lin:
+			ll = append(ll, iv)
+		case fast:
+			ff = append(ff, iv)
+		default:
+			r.Bad("compatibility.calls", p.Pos(iv.Call.Pos()), "compatibility calls "+iv.What+", which cannot be resolved to one of the two walks")
+			return
+		}
+	}
 	if len(ll) != 1 || len(ff) != 1 {
 		r.Bad("compatibility.calls", p.Pos(comp.Pos()), fmt.Sprintf("compatibility calls compatLinear %d times and compatFast %d times, expected one each", len(ll), len(ff)))
 		return
 	}
-	side := func(c ssa.CallInstruction) (isLinear, ok bool) {
-		for _, g := range Guards(c.Block()) {
+	side := func(iv c07Invocation) (isLinear, ok bool) {
+		for _, g := range iv.Conds {
 			t := tm.Of(g.Cond)
 			if t.Op == "bin" && (t.Name == "==" || t.Name == "!=") && strings.Contains(t.String(), ".GenCompatMethod") && strings.Contains(t.String(), cl.Val().ExactString()) {
 				return (t.Name == "==") == g.True, true
@@ -892,11 +954,18 @@ func (r *Run) c07Dispatch() {
 	}
 	l, ok1 := side(ll[0])
 	f, ok2 := side(ff[0])
-	r.Check(ok1 && l, "compatibility.linear", p.Pos(ll[0].Pos()), "compatLinear is reached exactly under GenCompatMethod == linear", "compatLinear is not selected by GenCompatMethod == "+cl.Val().ExactString())
-	r.Check(ok2 && !f, "compatibility.fast", p.Pos(ff[0].Pos()), "compatFast is reached otherwise", "compatFast is not the alternative of the linear method")
-	for _, c := range []ssa.CallInstruction{ll[0], ff[0]} {
-		a := callArgTerms(tm, c.Common())
-		okA := a[0].Op == "recv" && isParamIdx(a[1], 1) && isParamIdx(a[2], 2)
+	r.Check(ok1 && l, "compatibility.linear", p.Pos(ll[0].Call.Pos()), "compatLinear is reached exactly under GenCompatMethod == linear", "compatLinear is not selected by GenCompatMethod == "+cl.Val().ExactString())
+	r.Check(ok2 && !f, "compatibility.fast", p.Pos(ff[0].Call.Pos()), "compatFast is reached otherwise", "compatFast is not the alternative of the linear method")
+	isWalkResult := func(v ssa.Value) bool {
+		return v == ll[0].Call.Value() || v == ff[0].Call.Value()
+	}
+	for _, iv := range []c07Invocation{ll[0], ff[0]} {
+		c := iv.Call
+		okA := len(iv.Args) == 3
+		if okA {
+			a := []*Term{tm.Of(iv.Args[0]), tm.Of(iv.Args[1]), tm.Of(iv.Args[2])}
+			okA = a[0].Op == "recv" && isParamIdx(a[1], 1) && isParamIdx(a[2], 2)
+		}
 		retOK := false
 		for _, b := range comp.Blocks {
 			if ret, ok := b.Instrs[len(b.Instrs)-1].(*ssa.Return); ok {
@@ -912,7 +981,7 @@ func (r *Run) c07Dispatch() {
 				}
 			}
 		}
-		r.Check(okA && retOK, "compatibility.passes:"+c.Common().StaticCallee().Name(), p.Pos(c.Pos()), "same genomes and options passed on, result returned", "the walk is not called with (g, og, opts) or its result is not what compatibility returns")
+		r.Check(okA && retOK, "compatibility.passes:"+iv.Target.Name(), p.Pos(c.Pos()), "same genomes and options passed on, result returned", "the walk is not called with (g, og, opts) or its result is not what compatibility returns")
 	}
 	// no other result: every return yields the result of a walk; a constant 0 is acceptable only
 	// for the very same genome object (pointer identity) - genome ids are not unique (every species
@@ -928,7 +997,7 @@ func (r *Run) c07Dispatch() {
 			vals = append(vals, c)
 		}
 		for _, v := range vals {
-			if v == ll[0].Value() || v == ff[0].Value() {
+			if isWalkResult(v) {
 				continue
 			}
 			same := false
